@@ -27,7 +27,8 @@ for a plain-function routine it reaches the `except StopStream:` clause), `play`
 `resume`, `stop`, `reset`, `Condition.wait/signal/unhang`, `TimeThread.thread_player`,
 `FlowVar.value` getter/setter, NRT `SystemClock.sched(0, ·)`, `ClockTask._wakeup`.
 The model describes the code AFTER the repairs D-C11-1 (`next` on a running routine is
-refused) and D-C11-2 (`reset` forgets the terminal value).
+refused), D-C11-2 (`reset` forgets the terminal value) and D12 (one pending scheduler entry per
+routine).
 Abstracted: the scheduler queue is the stable sorted list C09 proves `TaskQueue` to be;
 only `SystemClock` exists (time = `Int` ticks); values are a small enum.
 Core Lean only (loaded by the driver).
@@ -157,9 +158,14 @@ def insertQ (e : Int × Nat) : List (Int × Nat) → List (Int × Nat)
   | [] => [e]
   | x :: xs => if e.1 < x.1 then e :: x :: xs else x :: insertQ e xs
 
+/-- `ClockScheduler.add`: a routine has at most one pending entry (per clock; here there is only
+    SystemClock) — an older entry is dropped, as `TaskQueue.add` does in the real-time queues. -/
+def enqueue (e : Int × Nat) (q : List (Int × Nat)) : List (Int × Nat) :=
+  insertQ e (q.filter fun x => x.2 != e.2)
+
 /-- NRT `SystemClock.sched(0, r)` called by the current thread. -/
 def M.sched (m : M) (r : Nat) : M :=
-  { m with queue := insertQ (m.secsOf m.cur, r) m.queue }
+  { m with queue := enqueue (m.secsOf m.cur, r) m.queue }
 
 def M.schedAll (m : M) : List Nat → M
   | [] => m
@@ -350,7 +356,7 @@ def M.handleReturn (m : M) (r : Nat) (R : Rt) (k : Nat) (res : Res) : M :=
 def M.finishTick (m : M) (t : Int) (r : Nat) (res : Res) : M :=
   let m0 := { m with pending := none, ext := .idle, out := some res }
   match res with
-  | .val (.num d) => { m0 with queue := insertQ (t + d, r) m0.queue }
+  | .val (.num d) => { m0 with queue := enqueue (t + d, r) m0.queue }
   | _ => m0
 
 /-- One small step.  Idle machines do not move. -/
